@@ -317,6 +317,16 @@ func runC19(c *Ctx) {
 	}
 	exempt := map[key]exemption{}
 	for _, e := range c19Exempt {
+		// the token counter is identified by its role (the float64 field of the filter), not by its name
+		if e.T == "vnet.TokenBucketFilter" && e.F == "currentTokensInBucket" {
+			if st := allStructs[e.T]; st != nil {
+				for i := 0; i < st.NumFields(); i++ {
+					if b, ok := st.Field(i).Type().(*types.Basic); ok && b.Kind() == types.Float64 {
+						e.F = st.Field(i).Name()
+					}
+				}
+			}
+		}
 		exempt[key{e.T, e.F}] = e
 	}
 	var keys []key
@@ -520,28 +530,41 @@ func c19CheckExemption(c *Ctx, p *Prog, la *lockAnalysis, ex exemption, accs []a
 				o.Site(a.In.Pos(), "%c in %s", a.Kind, fname(a.In.Parent()))
 			}
 		}
+		// the goroutine root: the unique function entered by a go statement from which every accessor is reached
+		var root *ssa.Function
 		for f := range accessors {
 			for g := range cg.callersClosure(f) {
-				if g == f || accessors[g] {
-					continue
-				}
-				// g calls (transitively) an accessor: it must be the goroutine root or the constructor that spawns it
-				goRoot := false
-				for _, e := range cg.In[g] {
-					_ = e
-				}
 				ins := cg.In[g]
 				if len(ins) == 1 && ins[0].Kind == "go" {
-					goRoot = true
-				}
-				spawner := false
-				for _, e := range cg.Out[g] {
-					if e.Kind == "go" {
-						spawner = true
+					if root != nil && root != g {
+						o.Fail(f.Pos(), "%s.%s is exempt as goroutine-confined but its accessors are reached from two goroutines (%s and %s)", ex.T, ex.F, fname(root), fname(g))
 					}
+					root = g
 				}
-				if !goRoot && !(spawner && len(cg.In[g]) == 0) {
-					o.Fail(f.Pos(), "%s.%s is exempt as goroutine-confined but accessor %s is reachable from %s, which is not the single goroutine started by the constructor", ex.T, ex.F, fname(f), fname(g))
+			}
+		}
+		if root == nil {
+			o.Fail(token.NoPos, "%s.%s is exempt as goroutine-confined but no single goroutine entered by one go statement reaches its accessors", ex.T, ex.F)
+			break
+		}
+		inside := cg.reachableFrom([]*ssa.Function{root}, func(e cgEdge) bool { return e.Kind == "static" || e.Kind == "defer" })
+		for f := range accessors {
+			if !inside[f] {
+				o.Fail(f.Pos(), "%s.%s is exempt as goroutine-confined but accessor %s is not reached from the goroutine %s", ex.T, ex.F, fname(f), fname(root))
+				continue
+			}
+			// every way into the accessor (transitively) must come from inside that goroutine
+			for g := range cg.callersClosure(f) {
+				if g == root || !inside[g] {
+					if g != root && !(len(cg.In[g]) == 0) && !reachesOnlyVia(cg, g, root) {
+						o.Fail(f.Pos(), "%s.%s is exempt as goroutine-confined but accessor %s is reachable from %s, outside the single goroutine %s started by the constructor", ex.T, ex.F, fname(f), fname(g), fname(root))
+					}
+					continue
+				}
+				for _, e := range cg.In[g] {
+					if !inside[e.From] && e.From != root {
+						o.Fail(e.Site.Pos(), "%s.%s is exempt as goroutine-confined but %s (which reaches accessor %s) is also called from %s, outside the goroutine %s", ex.T, ex.F, fname(g), fname(f), fname(e.From), fname(root))
+					}
 				}
 			}
 		}
@@ -710,4 +733,33 @@ func c19FreeCells(c *Ctx, p *Prog) {
 			}
 		}
 	}
+}
+
+// reachesOnlyVia: g reaches the accessors only by starting root (it is the constructor that
+// spawns the goroutine, or one of its callers).
+func reachesOnlyVia(cg *cgraph, g, root *ssa.Function) bool {
+	for _, e := range cg.Out[g] {
+		if e.To == root && e.Kind == "go" {
+			return true
+		}
+	}
+	// callers of the spawner
+	seen := map[*ssa.Function]bool{}
+	var rec func(x *ssa.Function) bool
+	rec = func(x *ssa.Function) bool {
+		if seen[x] {
+			return false
+		}
+		seen[x] = true
+		for _, e := range cg.Out[x] {
+			if e.To == root && e.Kind == "go" {
+				return true
+			}
+			if e.Kind != "go" && rec(e.To) {
+				return true
+			}
+		}
+		return false
+	}
+	return rec(g)
 }
